@@ -164,8 +164,12 @@ def run(ctx):
                 "set parsed from arguments (random subset of 8 secret-bearing flags) and dumped by FlagsDescriber OneLine and Plain, twice; "
                 "binary: the real binary started twice per case with secrets s1 != s2 of equal length via flags / FORWARDER_* environment / "
                 "JSON config file, log level error|info|debug, log-http none|short-url|url|errors, text and json log format, with and "
-                "without --log-file and MITM key material; 11 exchanges per run (proxy auth ok / missing / wrong, upstream failure, CONNECT "
-                "denied / ok (+ MITM handshake), userinfo in the request URL, /configz with / without / wrong credentials, /version). "
+                "without --log-file and MITM key material, two modules in different modes, upstream password via --proxy URL or via "
+                "--credentials, upstream down; ~45 exchanges per run (proxy auth ok / missing / wrong; upstream closing / 407 / 502 / 403 / "
+                "silent for plain requests and CONNECT; MITM handshake; userinfo in the request URL; /configz with / without / wrong "
+                "credentials; 6 rounds of a 5xx exchange with a --credentials site alternating with successful proxy and API exchanges; "
+                "HTTP-dump records of 5xx exchanges in errors mode are exempt, as the statement allows); inprocess: the real HTTPProxy "
+                "with a 400 ms CONNECT timeout (the binary has no flag for it) against the same upstream faults, scan only. "
                 "Every case is non-trivial (each carries at least one secret)",
         "traces_validated_against_impl": evals,
         "model_mismatches": len(model_bad),
